@@ -442,6 +442,10 @@ def drun (c : DCfg) : DSt → List DLabel → Option DSt
     | none => none
     | some s' => drun c s' ls
 
+/-- the process result of `run_parallel` (main.rs 516-522): `Ok` iff no file failed and the run was
+    not cancelled -/
+def dexitOk (s : DSt) : Bool := !(s.results.any (fun r => r.2 == FileResult.err)) && !s.cancelled
+
 /-- the monitor configuration that corresponds to a driver run -/
 def monCfgOf (c : DCfg) (mgmt : Str) (s : DSt) : MonCfg :=
   { jobs := c.jobs, keep := c.keep, refused := s.refused, mgmtDb := mgmt
